@@ -81,7 +81,7 @@ def check(ctx):
         diff = {n: dict(batch=rec["obs"][n], solo=rec["solo"][n], verdict=rec["verdict"][n], solo_verdict=rec["solov"][n])
                 for n in names if rec["obs"][n] != rec["solo"][n] or rec["verdict"][n] != rec["solov"][n]}
         desc = dict(scripts={s["name"]: s["lines"] for s in rec["scripts"]}, retain=rec["retain"], mode=rec["mode"], differs=diff,
-                    left=rec["left"], live=rec["live"], host=rec["host"], canary=rec["canary"], leaked=rec.get("leaked"), rootlast=rec["rootlast"], end=rec["end"],
+                    left=rec["left"], live=rec["live"], host=rec["host"], canary=rec["canary"], leaked=rec.get("leaked"), missing=rec.get("missing"), rootlast=rec["rootlast"], end=rec["end"],
                     ran=rec["ran"], reg=rec["reg"], events=" ".join("%s:%s%s" % (e["s"], e["ev"], "" if e["ev"] == "obs" else "(" + e["v"] + ")") for e in rec["events"][:80]),
                     schedule=rec.get("sched"))
         shapes = sorted(set(json.dumps(s["lines"]) for s in rec["scripts"] if s["name"] in diff)) if diff else []
